@@ -10,6 +10,7 @@ M15 == Corpus("M15")
 NE15 == Corpus("NE15")
 HS15 == Corpus("HS15")
 NM == Len(M15)
+SS15 == Corpus("SS15")
 
 VARIABLES c, phase
 vars == <<c, phase>>
@@ -21,6 +22,7 @@ InFamily(x) ==
   \/ \E m \in 0..MaxLen : x \in [kind : {"merge"}, t : [1..m -> 1..NM], i : {0}, j : {0}]
   \/ x \in [kind : {"unary"}, t : {<<>>}, i : 1..NM, j : {0}]
   \/ x \in [kind : {"in", "invar"}, t : {<<>>}, i : 1..Len(NE15), j : 1..Len(HS15)]
+  \/ x \in [kind : {"instr"}, t : {<<>>}, i : 1..Len(SS15), j : 1..Len(SS15)]
 
 Vals(cc) == [q \in DOMAIN cc.t |-> M15[cc.t[q]]]
 RuleOf(cc) ==
@@ -28,6 +30,7 @@ RuleOf(cc) ==
     [] cc.kind = "unary" -> IF M15[cc.i].t = "a" THEN Op(K_merge, <<M15[cc.i]>>) ELSE OpU(K_merge, M15[cc.i])
     [] cc.kind = "in" -> Op(K_in, <<NE15[cc.i], HS15[cc.j]>>)
     [] cc.kind = "invar" -> Op(K_in, <<VarOf(S_x), VarOf(S_y)>>)
+    [] cc.kind = "instr" -> Op(K_in, <<SS15[cc.i], SS15[cc.j]>>)
 DataOf(cc) == IF cc.kind = "invar" THEN Obj(<< <<S_x, NE15[cc.i]>>, <<S_y, HS15[cc.j]>> >>) ELSE Null
 
 Init == InFamily(c) /\ phase = "new"
@@ -62,6 +65,9 @@ InLaws ==
          [] h.t = "s" -> IF n.t = "s" THEN o.ok /\ o.v = Bool(IsSubSeq(n.v, h.v)) ELSE ~o.ok
          [] h.t = "a" -> o.ok /\ o.v = Bool(\E q \in DOMAIN h.v : DeepNumEq(n, h.v[q]))
          [] OTHER -> ~o.ok
+SubstringLaw ==
+  phase = "done" /\ c.kind = "instr" =>
+    Outcome(c).ok /\ Outcome(c).v = Bool(IsSubSeq(SS15[c.i].v, SS15[c.j].v))
 \* numerically equal numbers are the same element whatever their spelling
 SpellingIrrelevant ==
   phase = "done" /\ c.kind = "in" /\ NE15[c.i].t = "n" /\ HS15[c.j].t = "a" =>
